@@ -205,6 +205,7 @@ class Gen17:
                 for pt in m5.POINTS:
                     self.steps.append({"op": "release", "point": pt, "who": ""})
         self.steps.append({"op": "sleep", "ns": 25 * INTERVAL})
+        self.steps.append({"op": "c17_flush"})
         self.steps.append({"op": "observe", "id": "final"})
         return {"steps": self.steps}
 
@@ -290,6 +291,24 @@ def command_stats(events):
     return out
 
 
+def run_scenarios(work, scenarios, timeout):
+    """m5.run_scenarios with a bound on the harness run: a mutant whose probe loops never stop keeps the
+    virtual clock running for ever (synctest.Run waits for every goroutine of the bubble)."""
+    write_jsonl(work.path("m5scen.jsonl"), scenarios)
+    try:
+        rc, gout = go_test(work, ["common_test.go", "sim_test.go", "simrun_test.go", "assets_test.go", "c17_test.go"], "^TestVerifSim$",
+                           {"VERIF_IN": work.path("m5scen.jsonl"), "VERIF_OUT": work.path("m5out.jsonl"),
+                            "VERIF_PARTIAL": work.path("m5partial.jsonl")}, synctest=True, timeout=timeout)
+    except subprocess.TimeoutExpired:
+        rc, gout = 1, "harness run exceeded %d s (goroutines that never stop keep the virtual clock running)" % timeout
+    if rc != 0 or not os.path.exists(work.path("m5out.jsonl")):
+        # the scenarios that did run flushed their traces
+        part = read_jsonl(work.path("m5partial.jsonl")) if os.path.exists(work.path("m5partial.jsonl")) else []
+        return False, gout, part
+    outs = read_jsonl(work.path("m5out.jsonl"))
+    return len(outs) == len(scenarios), gout, outs
+
+
 def run(tier, seed):
     res = Result("C17", tier, seed)
     work = Work("C17")
@@ -301,23 +320,23 @@ def run(tier, seed):
         n_y = 10 if tier == "quick" else 300          # scenarios with armed yields (acceptor in structural mode)
         scs = [Gen17(rnd).gen(rnd.randint(3, 9)) for _ in range(n)]
         scs += [Gen17(rnd, yields=True).gen(rnd.randint(3, 9)) for _ in range(n_y)]
-        harness_ok, gout, outs = m5.run_scenarios(work, scs)
+        harness_ok, gout, outs = run_scenarios(work, scs, 200 if tier == "quick" else 1500)
         rejected, mon_fail = [], []
         stats = collections.Counter()
         nevents = 0
-        if harness_ok and ok:
+        if outs and ok:
             from concurrent.futures import ThreadPoolExecutor
 
             BATCH = 6
 
             def ev(j):
-                idx = list(range(j, min(j + BATCH, len(scs))))
+                idx = list(range(j, min(j + BATCH, len(outs))))
                 lits = {}
                 body = "".join(trace_def(project(outs[i]["events"]), "tr_%d" % i, lits) for i in idx)
                 body += "Definition R := Eval vm_compute in [%s].\n" % "; ".join("eval_trace tr_%d" % i for i in idx)
                 return idx, parse_eval(coq_eval(work, "T_%d" % j, IMPORTS, body, "R"))
             with ThreadPoolExecutor(max_workers=16) as ex:
-                for idx, rs in ex.map(ev, range(0, len(scs), BATCH)):
+                for idx, rs in ex.map(ev, range(0, len(outs), BATCH)):
                     if len(rs) != len(idx):
                         raise RuntimeError("evaluation lost a trace")
                     for i, (rej, fails) in zip(idx, rs):
